@@ -397,6 +397,40 @@ def run_specpath(c):
     return {'ok': [str(x) for x in r]}
 
 
+NP_OF = {'I8': 'i1', 'I16': 'i2', 'I32': 'i4', 'I64': 'i8', 'U8': 'u1', 'U16': 'u2', 'U32': 'u4', 'U64': 'u8'}
+ITY_OF = {np.dtype(v).str.lstrip('<>|='): k for k, v in NP_OF.items()}
+BINOPS = {'OAdd': lambda a, b: a + b, 'OSub': lambda a, b: a - b, 'OMul': lambda a, b: a * b,
+          'OShl': lambda a, b: a << b, 'OShr': lambda a, b: a >> b, 'OAnd': lambda a, b: a & b}
+
+
+def typed_eval(t, env):
+    """a typed expression tree of translate/c16.py evaluated by NumPy on one-element arrays / Python ints"""
+    k = t[0]
+    if k in ('arr', 'int'):
+        dt, v = env[t[1]]
+        return int(v) if dt is None else np.array([int(v)], dtype=NP_OF[dt])
+    if k == 'lit':
+        return int(t[1])
+    if k == 'cast':
+        return np.array(typed_eval(t[2], env), dtype=NP_OF[t[1]])
+    return BINOPS[t[1]](typed_eval(t[2], env), typed_eval(t[3], env))
+
+
+def run_typed(c):
+    try:
+        with warnings.catch_warnings():
+            warnings.simplefilter('ignore')
+            r = typed_eval(c['tree'], c['env'])
+    except Exception as e:  # noqa: BLE001
+        return {'err': type(e).__name__, 'msg': str(e)[:200]}
+    if isinstance(r, np.ndarray):
+        name = r.dtype.str.lstrip('<>|=')
+        if name not in ITY_OF:
+            return {'err': 'Dtype', 'msg': str(r.dtype)}
+        return {'ok': [ITY_OF[name], int(r.reshape(-1)[0])]}
+    return {'ok': [None, int(r)]}
+
+
 def main():
     payload = json.load(sys.stdin)
     results = []
@@ -412,6 +446,8 @@ def main():
             results.append(rs)
         elif job['kind'] == 'append_history':
             results.append([run_append_history(h) for h in job['histories']])
+        elif job['kind'] == 'typed':
+            results.append([run_typed(c) for c in job['cases']])
         elif job['kind'] == 'specpath':
             results.append([run_specpath(c) for c in job['cases']])
         else:
